@@ -27,6 +27,15 @@ theorem C19_tags (c : Cfg) (s t : Nat) :
     isTag c s t = true ↔ (t ∈ (c.args s).tags ∨ (t = 0 ∧ (c.args s).accepted = true)) :=
   isTag_iff c s t
 
+/-- **Tags are live.** `tags` is a public attribute: after it has been edited (re-assigned, appended to,
+removed from; `l` = the list afterwards) the state answers `is_<t>` exactly for `l` — nothing is remembered
+from earlier queries or entries — and no other state is affected. (`Error.enter` reads `is_accepted`
+through the same function, so `C19_error_iff` applies with the edited configuration.) -/
+theorem C19_tags_mutable (c : Cfg) (s : Nat) (l : List Nat) (t : Nat) :
+    (isTag (c.setTags s l) s t = true ↔ t ∈ l) ∧
+    (∀ s', s' ≠ s → isTag (c.setTags s l) s' t = isTag c s' t) :=
+  ⟨isTag_setTags c s l t, fun s' h => isTag_setTags_other c s s' l t h⟩
+
 /-- **Tags on the built machine, full strength.** After `add_states`, every state answers `is_<t>`
 exactly for the tags of its *own* definition (+ 'accepted' iff declared accepted) — for every list of
 definitions and every heap of caller-side list objects, shared between definitions or not.
@@ -61,6 +70,22 @@ theorem C19_volatile_fresh (c : Cfg) (hV : .volatile ∈ c.feats) (hnd : c.feats
 theorem C19_volatile_removed (c : Cfg) (hV : .volatile ∈ c.feats) (s m : Nat) (st : FS) :
     (exitOp c s m st).hooks m (c.args s).hook = none :=
   exitOp_removed c hV s m st
+
+/-- **Volatile, aborted exit.** When an on_exit callback of the state raises, the exit is aborted: the
+model keeps its object (all hook attributes, counters and the object counter are untouched), and on the flat
+machine the model is still in the state — "carries the object exactly while it is in the state". -/
+theorem C19_volatile_kept (c : Cfg) (s m : Nat) (st : FS) :
+    (step c (.exitFail s m) st).2 = .aborted ∧ (step c (.exitFail s m) st).1.hooks = st.hooks ∧
+    (step c (.exitFail s m) st).1.counts = st.counts ∧ (step c (.exitFail s m) st).1.fresh = st.fresh :=
+  ⟨rfl, rfl, rfl, rfl⟩
+
+/-- … flat engine: a vetoed external transition leaves the model where it was, with its hooks. -/
+theorem C19_flat_veto (F : Flat) (m ev : Nat) (ms : MS) (t : Feat.Trans) (d : Nat)
+    (hf : F.trans.find? (fun t => t.ev = ev ∧ t.src = ms.cur m) = some t) (hd : t.dest = some d) :
+    (trigger F m ev ms true).2 = .vetoed ∧ (trigger F m ev ms true).1.cur = ms.cur ∧
+    (trigger F m ev ms true).1.fs.hooks = ms.fs.hooks := by
+  have h := trigger_veto F m ev ms t d hf hd
+  exact ⟨h.1, h.2.1, by rw [h.2.2]; rfl⟩
 
 /-- **Volatile, histories.** After any history, the objects created so far are exactly `0 … fresh-1`,
 each created once, and every object bound to any hook of any model is one of them — so the object
@@ -117,6 +142,32 @@ theorem C19_retry_exact (c : Cfg) (s m : Nat) (hR : .retry ∈ c.feats) (hnd : c
         cases h
     · intro hk
       exact (e1.1 (by omega)).1
+
+/-- **Retry on hierarchical machines, full strength** — `RetryExactScoped c s m` (Model/Features.lean): the
+clause with the source names as `Retry.enter` actually reads them.  It is **false** of the code (known finding
+F-C19-retry-local-source): for a self-transition declared *inside the parent's state dict* the source is the
+relative name, never equal to the scoped `self.name`, so the counter restarts on every entry and the limit
+never bites.  It holds when every re-entry's source is read as the state's own (full) name, i.e. for
+transitions declared on the machine: -/
+theorem C19_retry_scoped_partial (c : Cfg) (s m : Nat) (hR : .retry ∈ c.feats) (hnd : c.feats.Nodup)
+    (hr : 0 < (c.args s).retries)
+    (hOk : c.hasOut s = true ∨ isAccepted c s = true ∨ .error ∉ c.feats)
+    (st : FS) (src0 : Nat) (h0 : src0 ≠ s) (seen : List Nat) (hseen : ∀ x ∈ seen, x = s) :
+    (enterOp c s m s (runOps c (.enter s m src0 :: seen.map (fun x => Op.enter s m x)) st)).2 = .entered ↔
+      seen.length + 1 ≤ (c.args s).retries := by
+  have h := map_self_noForeign s m seen hseen
+  have := (C19_retry_exact c s m hR hnd hr hOk st src0 h0 _ h.1).2.1
+  rw [h.2] at this
+  exact this
+
+/-- witness: state 1 = `A_b` with `retries = 1`, the re-entries' source read as 9 (the relative name `b`):
+the third consecutive re-entry still runs the enter callbacks -/
+theorem C19_retry_scoped_counterexample :
+    ¬ RetryExactScoped { feats := [.retry], args := fun _ => { retries := 1 }, hasOut := fun _ => true } 1 0 := by
+  intro h
+  have h2 := (h FS.init 0 (by decide) [9, 9] 9).mp (by decide)
+  revert h2
+  decide
 
 /-- **Retry, no limit.** `retries = 0` (or not passed) never invokes `on_failure`. -/
 theorem C19_retry_unlimited (c : Cfg) (s m src : Nat) (st : FS) (h0 : (c.args s).retries = 0)
